@@ -172,6 +172,15 @@ func c08CloseD(x *explore.Ctx, readerIsServer, allCodes, deflate bool) {
 		nc.Chunk = netsim.ChunkFixed(ch)
 	}
 	c := websocket.VerifNewConn(nc, readerIsServer, 0, 0, nil, deflate)
+	if x.Choose(2, "custom-handlers-then-reset-to-default") == 1 {
+		// installing custom handlers and then passing nil restores the default behaviour
+		c.SetPingHandler(func(string) error { return errors.New("custom ping handler still installed") })
+		c.SetCloseHandler(func(int, string) error { return errors.New("custom close handler still installed") })
+		c.SetPongHandler(func(string) error { return errors.New("custom pong handler still installed") })
+		c.SetPingHandler(nil)
+		c.SetCloseHandler(nil)
+		c.SetPongHandler(nil)
+	}
 	rr := ReadAllMessages(c, x.Choose(2, "readprog"), 3, 6)
 	x.NonTrivial()
 	x.Obs("delivered=%s err=%v out=%s", fmtMsgs(rr.Msgs), rr.Err, short(nc.Out))
